@@ -494,7 +494,11 @@ func c07cJob(raw json.RawMessage) (any, error) {
 			for k := 0; k < 3; k++ {
 				ctx := types.NewContext()
 				if ctx.Count() != 0 || ctx.Path != "" || ctx.Node() != nil || ctx.RouterName() != "" {
-					return mk("C07.pool-empty", "pool-not-empty", fmt.Sprintf("NewContext(): Count=%d Path=%q Node=%v RouterName=%q", ctx.Count(), ctx.Path, ctx.Node(), ctx.RouterName()), "an empty context")
+					node := "<nil>"
+					if n := ctx.Node(); n != nil {
+						node = "route " + n.Pattern()
+					}
+					return mk("C07.pool-empty", "pool-not-empty", fmt.Sprintf("NewContext(): Count=%d Path=%q Node=%s RouterName=%q", ctx.Count(), ctx.Path, node, ctx.RouterName()), "an empty context")
 				}
 				defer ctx.Destroy()
 			}
